@@ -11,6 +11,7 @@ import (
 	"sync"
 
 	"verifharness/drivers/alpn"
+	"verifharness/drivers/enrol"
 	"verifharness/drivers/faults"
 	"verifharness/drivers/hsd"
 	"verifharness/drivers/mux"
@@ -35,6 +36,9 @@ var families = map[string]famFn{
 	},
 	"alpn": func(in, out string, seed int64, par int, tier string) error {
 		return runFamily(in, out, seed, par, alpn.Run, func(b alpn.Behaviour) string { return b.Id })
+	},
+	"enrol": func(in, out string, seed int64, par int, tier string) error {
+		return runFamily(in, out, seed, par, enrol.Run, func(b enrol.Behaviour) string { return b.Id })
 	},
 	"faults": func(in, out string, seed int64, par int, tier string) error {
 		return runFamily(in, out, seed, par, faults.Run, func(b faults.Behaviour) string { return b.Id })
